@@ -115,7 +115,8 @@ def check_table(ctx):
                            required="denotes the gate's matrix up to one non-zero scalar, same arity", mod=ZX, node=st, sig="entry-" + cname)
                 elif cname == "GatesScalar":
                     body_src = ast.unparse(ast.Module(body=st.body, type_ignores=[]))
-                    ok = "raise NotImplementedError" in body_src and "%s.is_mixed" % boxp in body_src and ast.unparse(st.body[-1]) == "return scalar(%s.data)" % boxp
+                    ok = len(st.body) == 2 and isinstance(st.body[0], ast.If) and ast.unparse(st.body[0].test) == "%s.is_mixed" % boxp and not st.body[0].orelse and len(st.body[0].body) == 1 \
+                        and ast.unparse(st.body[0].body[0]) == "raise NotImplementedError" and ast.unparse(st.body[-1]) == "return scalar(%s.data)" % boxp
                     ctx.ob("R16.1", cons, ok, found=body_src[:120], required="pure scalars go to scalar(data); mixed scalars are refused", mod=ZX, node=st, sig="entry-scalar")
                 else:
                     raise AnalysisError("gate2zx tests class %s, for which the checker has no reference matrix" % cname)
